@@ -90,6 +90,40 @@ impl Stats {
 		}
 	}
 
+	/// Serialise for transport from a worker process.
+	pub fn to_json(&self) -> Value {
+		json!({
+			"evaluations": self.evaluations,
+			"nontrivial": self.nontrivial.iter().collect::<Vec<_>>(),
+			"nontrivial_extra": self.nontrivial_extra,
+			"classes": self.classes,
+			"excluded": self.excluded,
+			"samples": self.samples,
+			"known_hits": self.known_hits,
+			"extra": self.extra,
+			"maxima": self.maxima,
+		})
+	}
+
+	pub fn from_json(v: &Value) -> Stats {
+		let map_u64 = |k: &str| -> BTreeMap<String, u64> {
+			v[k].as_object().map(|o| o.iter().map(|(a, b)| (a.clone(), b.as_u64().unwrap_or(0))).collect()).unwrap_or_default()
+		};
+		Stats {
+			frozen: false,
+			evaluations: v["evaluations"].as_u64().unwrap_or(0),
+			nontrivial: v["nontrivial"].as_array().map(|a| a.iter().filter_map(|x| x.as_u64()).collect()).unwrap_or_default(),
+			nontrivial_extra: v["nontrivial_extra"].as_u64().unwrap_or(0),
+			classes: map_u64("classes"),
+			excluded: map_u64("excluded"),
+			samples: v["samples"].as_array().cloned().unwrap_or_default(),
+			sample_seen: 0,
+			known_hits: map_u64("known_hits"),
+			extra: v["extra"].as_object().map(|o| o.iter().map(|(a, b)| (a.clone(), b.clone())).collect()).unwrap_or_default(),
+			maxima: v["maxima"].as_object().map(|o| o.iter().map(|(a, b)| (a.clone(), b.as_f64().unwrap_or(0.0))).collect()).unwrap_or_default(),
+		}
+	}
+
 	pub fn merge(&mut self, o: Stats) {
 		self.evaluations += o.evaluations;
 		self.nontrivial.extend(o.nontrivial);
